@@ -23,7 +23,7 @@ OK=0
 if [ $RC_ORIG -eq 0 ] && [ $RC_MUT -ne 0 ] && echo "$TESTS" | grep -q "100% tests passed, 0 tests failed out of 265"; then OK=1; fi
 if [ $OK -eq 1 ]; then
   mkdir -p $OUT
-  git diff -- src > $OUT/patch.diff
+  git diff -- src applis > $OUT/patch.diff
   cp $DEMO $OUT/demo.c
   python3 - "$ID" "$PROP" "$NEEDS" "$RC_ORIG" "$RC_MUT" "$TESTS" "$(git -C /repo rev-parse --short HEAD)" <<'PY'
 import json,sys
